@@ -259,7 +259,8 @@ def pseudoPats (s : Screen) (c : Conn) (f : PseudoFlags) : List RPat :=
     [if cursorFits c.caps.richCursor c.bpp s.curW s.curH && !s.curEmpty then
        RPat.cursor (cursorEnc c.caps) s.curXhot s.curYhot s.curW s.curH
      else RPat.cursor (cursorEnc c.caps) 0 0 0 0] else []) ++
-  (if f.pos then [RPat.pseudo rfbEncodingPointerPos] else []) ++
+  -- rfbSendCursorPos: x / y = screen->cursorX / cursorY (16-bit fields), w = h = 0
+  (if f.pos then [RPat.cursor rfbEncodingPointerPos (u16 s.cursorX) (u16 s.cursorY) 0 0] else []) ++
   (if f.led then [RPat.pseudo rfbEncodingKeyboardLedState] else []) ++
   (if f.supMsgs then [RPat.pseudo rfbEncodingSupportedMessages] else []) ++
   (if f.supEncs then [RPat.pseudo rfbEncodingSupportedEncodings] else []) ++
